@@ -37,7 +37,7 @@ ASSUMPTIONS = [
     "sympy.sympify of the generated text denotes the number the field element denotes (checked numerically to 30 digits per base)",
 ]
 TIMEOUT = {"quick": 30, "thorough": 150}
-DEADLINE = {"quick": 80, "thorough": 1400}
+DEADLINE = {"quick": 80, "thorough": 1000}
 MIN_DECIDING = {"quick": 100, "thorough": 3000}
 
 HOOKS = {}
